@@ -85,3 +85,26 @@ func ContextWithCancel(parent context.Context) (context.Context, context.CancelF
 }
 
 var errCanceledModel = errors.New("context canceled")
+
+// BytesCompare mirrors bytes.Compare on possibly symbolic content (branching per byte).
+func BytesCompare(a, b []byte) int {
+	n := len(a)
+	if len(b) < n {
+		n = len(b)
+	}
+	for i := 0; i < n; i++ {
+		if a[i] != b[i] {
+			if a[i] < b[i] {
+				return -1
+			}
+			return 1
+		}
+	}
+	switch {
+	case len(a) < len(b):
+		return -1
+	case len(a) > len(b):
+		return 1
+	}
+	return 0
+}
